@@ -113,6 +113,16 @@ pub struct TaggedString<T> {
     pub tag: T,
 }
 
+/// Display width of a string as the sum of its characters' widths.  The
+/// wrapping code advances one character at a time, so every running width it
+/// keeps has to be measured the same way; `UnicodeWidthStr::width` gives a
+/// different answer for some sequences (e.g. an emoji variation selector).
+fn str_width(s: &str) -> usize {
+    s.chars()
+        .map(|c| UnicodeWidthChar::width(c).unwrap_or(0))
+        .sum()
+}
+
 impl<T: Debug + PartialEq> TaggedString<T> {
     /// Returns the tagged string’s display width in columns.
     ///
@@ -170,7 +180,7 @@ impl<T: Debug + Eq + PartialEq + Clone + Default> TaggedLine<T> {
 
     /// Create a new TaggedLine from a string and tag.
     pub fn from_string(s: String, tag: &T) -> TaggedLine<T> {
-        let len = UnicodeWidthStr::width(s.as_str());
+        let len = str_width(s.as_str());
         TaggedLine {
             v: vec![TaggedLineElement::Str(TaggedString {
                 s,
@@ -207,7 +217,7 @@ impl<T: Debug + Eq + PartialEq + Clone + Default> TaggedLine<T> {
         use self::TaggedLineElement::Str;
 
         if !ts.s.is_empty() {
-            self.len += UnicodeWidthStr::width(ts.s.as_str());
+            self.len += str_width(ts.s.as_str());
             if let Some(Str(ts_prev)) = self.v.last_mut() {
                 if ts_prev.tag == ts.tag {
                     ts_prev.s.push_str(&ts.s);
@@ -242,7 +252,7 @@ impl<T: Debug + Eq + PartialEq + Clone + Default> TaggedLine<T> {
     fn insert_front(&mut self, ts: TaggedString<T>) {
         use self::TaggedLineElement::Str;
 
-        self.len += UnicodeWidthStr::width(ts.s.as_str());
+        self.len += str_width(ts.s.as_str());
 
         if let Some(Str(ts1)) = self.v.get_mut(0) {
             if ts1.tag == ts.tag {
@@ -323,7 +333,7 @@ impl<T: Debug + Eq + PartialEq + Clone + Default> TaggedLine<T> {
 
     /// Return the width of the line in cells
     fn width(&self) -> usize {
-        let result = self.tagged_strings().map(TaggedString::width).sum();
+        let result = self.tagged_strings().map(|ts| str_width(&ts.s)).sum();
         debug_assert_eq!(self.len, result);
         result
     }
@@ -471,7 +481,7 @@ impl<T: Clone + Eq + Debug + Default> WrappedBlock<T> {
         let mut lineleft = self.width - self.line.len;
         for element in self.word.remove_items() {
             if let Str(piece) = element {
-                let w = piece.width();
+                let w = str_width(&piece.s);
                 let mut wpos = 0; // Width of already-copied pieces
                 let mut bpos = 0; // Byte position of already-copied pieces
                                   //
@@ -1270,7 +1280,7 @@ impl<D: TextDecorator> SubRenderer<D> {
                 let s = ts.s.replace('\n', " ");
                 let tag = vec![ts.tag];
 
-                let width = s.width();
+                let width = str_width(&s);
                 if self.options.wrap_links && pos + width > self.width {
                     // split the string and start a new line
                     let mut buf = String::new();
